@@ -552,4 +552,12 @@ func init() {
 		Old:    "\t\tgoto afterComment",
 		New:    "\t\tif ch == eof {\n\t\t\tgoto afterComment\n\t\t}\n\t\treturn s.Scan()",
 		Expect: "(*parser.scanner).Scan | no-self-call"})
+	addFixture(Fixture{Name: "monitor-closes-its-update-channel", Rule: "R-CLOSE-OWNER", File: "process/monitor.go",
+		Old:    "\t\tm.re.logMonitorf(\"Monitor terminating\\n\")\n",
+		New:    "\t\tm.re.logMonitorf(\"Monitor terminating\\n\")\n\t\tclose(m.monitorChan)\n",
+		Expect: "monitorLoop | close"})
+	addFixture(Fixture{Name: "typechecker-collects-every-error", Rule: "R-ONE-DIAGNOSTIC", File: "process/typechecker.go",
+		Old:    "\tif err := preliminaryFunctionDefinitionsChecks(globalEnv); err != nil {\n\t\terrorChan <- err\n\t\treturn\n\t}",
+		New:    "\tif err := preliminaryFunctionDefinitionsChecks(globalEnv); err != nil {\n\t\tvar errs []error\n\t\terrs = append(errs, err)\n\t\terrorChan <- errs[0]\n\t\treturn\n\t}",
+		Expect: "aggregate-error"})
 }
